@@ -129,17 +129,31 @@ def renBuilt (σ : Nat → Nat) (p : RTree × List Nat) : RTree × List Nat := (
 def renBuiltList (σ : Nat → Nat) (p : List RTree × List Nat) : List RTree × List Nat :=
   (renTreeList σ p.1, p.2.map σ)
 
+theorem visitKidsRef_ren (σ : Nat → Nat) (hinj : ∀ a b, σ a = σ b → a = b) (vis : List Nat) (k : Obj) :
+    visitKidsRef (vis.map σ) (renObj σ k) = (visitKidsRef vis k).map (List.map σ) := by
+  cases k with
+  | ref n g =>
+    by_cases hn : n < 0
+    · simp [renObj, renNum, visitKidsRef, hn]
+    · have h2 : ¬ ((σ n.toNat : Nat) : Int) < 0 := by omega
+      simp only [renObj, renNum, visitKidsRef, hn, h2, if_false, Int.toNat_natCast, contains_map_inj σ hinj]
+      split <;> simp
+  | _ => simp [renObj, visitKidsRef]
+
 theorem build_ren (σ : Nat → Nat) (hinj : ∀ a b, σ a = σ b → a = b) (res res' : Res)
     (h : Renumbered σ res res') : ∀ fuel,
-    (∀ vis d, buildNode res' fuel (vis.map σ) (renKV σ d) = (buildNode res fuel vis d).map (renBuilt σ)) ∧
-    (∀ vis ks, buildKids res' fuel (vis.map σ) (renList σ ks) = (buildKids res fuel vis ks).map (renBuiltList σ)) := by
+    (∀ dep vis d, buildNode res' fuel dep (vis.map σ) (renKV σ d) = (buildNode res fuel dep vis d).map (renBuilt σ)) ∧
+    (∀ dep vis ks, buildKids res' fuel dep (vis.map σ) (renList σ ks) = (buildKids res fuel dep vis ks).map (renBuiltList σ)) := by
   intro fuel
   induction fuel with
-  | zero => exact ⟨fun _ _ => rfl, fun _ _ => rfl⟩
+  | zero => exact ⟨fun _ _ _ => rfl, fun _ _ _ => rfl⟩
   | succ fuel ih =>
     refine ⟨?_, ?_⟩
-    · intro vis d
+    · intro dep vis d
       simp only [buildNode, dget_ren]
+      by_cases hdep : dep ≥ PdfDoc.maxPageTreeDepth
+      · simp [hdep, Except.map]
+      simp only [hdep, if_false]
       cases hT : dget d kType with
       | none => rfl
       | some o =>
@@ -151,27 +165,31 @@ theorem build_ren (σ : Nat → Nat) (hinj : ∀ a b, σ a = σ b → a = b) (re
             cases hK : dget d kKids with
             | none => rfl
             | some k =>
-              simp only [Option.map_some, resolve_ren σ res res' h]
-              cases hr : resolve res k with
-              | error e => rfl
-              | ok v =>
-                cases v with
-                | stream dd => rfl
-                | obj ko =>
-                  cases ko with
-                  | arr kids =>
-                    simp only [Except.map, renSVal, renObj]
-                    rw [ih.2 vis kids]
-                    cases buildKids res fuel vis kids with
-                    | error e => rfl
-                    | ok p => rfl
-                  | _ => simp [Except.map, renSVal, renObj]
+              simp only [Option.map_some, resolve_ren σ res res' h, visitKidsRef_ren σ hinj]
+              cases hv : visitKidsRef vis k with
+              | none => rfl
+              | some vis0 =>
+                simp only [Option.map_some]
+                cases hr : resolve res k with
+                | error e => rfl
+                | ok v =>
+                  cases v with
+                  | stream dd => rfl
+                  | obj ko =>
+                    cases ko with
+                    | arr kids =>
+                      simp only [Except.map, renSVal, renObj]
+                      rw [ih.2 (dep + 1) vis0 kids]
+                      cases buildKids res fuel (dep + 1) vis0 kids with
+                      | error e => rfl
+                      | ok p => rfl
+                    | _ => simp [Except.map, renSVal, renObj]
           · simp only [hp, if_false]
             by_cases hq : t = kPage
             · simp [hq, Except.map, renBuilt, renTree]
             · simp [hq, Except.map]
         | _ => simp [renObj, Except.map]
-    · intro vis ks
+    · intro dep vis ks
       cases ks with
       | nil => rfl
       | cons k ks =>
@@ -196,15 +214,15 @@ theorem build_ren (σ : Nat → Nat) (hinj : ∀ a b, σ a = σ b → a = b) (re
                   cases ko with
                   | dict kd =>
                     simp only [Except.map, renSVal, renObj]
-                    have := ih.1 (n.toNat :: vis) kd
+                    have := ih.1 dep (n.toNat :: vis) kd
                     simp only [List.map_cons] at this
                     rw [this]
-                    cases buildNode res fuel (n.toNat :: vis) kd with
+                    cases buildNode res fuel dep (n.toNat :: vis) kd with
                     | error e => rfl
                     | ok p =>
                       simp only [Except.map, renBuilt]
-                      rw [ih.2 p.2 ks]
-                      cases buildKids res fuel p.2 ks with
+                      rw [ih.2 dep p.2 ks]
+                      cases buildKids res fuel dep p.2 ks with
                       | error e => rfl
                       | ok q => rfl
                   | _ => simp [Except.map, renSVal, renObj]
@@ -243,10 +261,10 @@ theorem pageTree_ren (σ : Nat → Nat) (hinj : ∀ a b, σ a = σ b → a = b) 
                   cases c with
                   | int i =>
                     simp only [Option.map_some, renObj]
-                    have := (build_ren σ hinj res res' h fuel).1 [] pd
+                    have := (build_ren σ hinj res res' h fuel).1 0 [] pd
                     simp only [List.map_nil] at this
                     rw [this]
-                    cases buildNode res fuel [] pd with
+                    cases buildNode res fuel 0 [] pd with
                     | error e => rfl
                     | ok q => rfl
                   | _ => simp [renObj, Except.map]
